@@ -1,10 +1,13 @@
 import SamplyModel.Proto
 import SamplyModel.Model.ConvFlush
+import SamplyModel.Model.SvmaBias
 /-!
 Line protocol shared by the perf.data-driven properties (C01, C17, C02, C14).
 
 ops (all numbers decimal, names/paths hex-encoded ASCII):
-  cfg <reuse 0|1> <fold 0|1> <ref>
+  cfg <reuse 0|1> <fold 0|1> <ref> [elf:<pathhex>:<baseSvma>:<svma>,<fileOff>,<size>;…]*
+      (an `elf:` word declares that the file at that path exists on disk, with the image base and the LOAD
+       segments the converter will read from it: MMAP2 records naming it are attributed segment-based)
   sample <pid> <tid> <t> <k|u> <period> <ip> <chain: comma separated | ->
   fork <pid> <tid> <ppid> <ptid> <t>
   exit <pid> <tid> <t>
@@ -34,13 +37,41 @@ def parseRec (l : String) : Option Rec :=
     some (.mmap2 (nat! pid) (nat! tid) (nat! addr) (nat! len) (nat! pgoff) (ex == "1") (strOfHex path) (nat! t))
   | _ => none
 
+def parseElf (w : String) : Option (String × SvmaBias.FileInfo) :=
+  match w.splitOn ":" with
+  | ["elf", path, base, segs] =>
+    let cs := (segs.splitOn ";").filterMap (fun seg =>
+      match seg.splitOn "," with
+      | [a, b, c] => some (⟨nat! a, nat! b, nat! c⟩ : SvmaBias.Contribution)
+      | _ => none)
+    some (strOfHex path, ⟨nat! base, cs⟩)
+  | _ => none
+
+/-- segment-based attribution of a file present on disk (`add_module_to_process` case 2): the record's
+page offset is replaced by the relative start computed by `SvmaBias.relStart`; `none` = the code would
+not add the mapping / would panic (not generated) -/
+def applyFiles (files : List (String × SvmaBias.FileInfo)) (r : Rec) : Option Rec :=
+  match r with
+  | .mmap2 pid tid addr len pgoff true path t =>
+    match files.find? (fun f => f.1 == path) with
+    | none => some r
+    | some f =>
+      match SvmaBias.relStart f.2 pgoff addr len with
+      | .ok rel => some (.mmap2 pid tid addr len rel true path t)
+      | _ => none
+  | _ => some r
+
 def parse (ls : List String) : Option (Config × List Rec) :=
   match ls with
   | l :: rest =>
     match words l with
-    | ["cfg", reuse, fold, ref] =>
+    | "cfg" :: reuse :: fold :: ref :: elfs =>
+      let files := elfs.filterMap parseElf
       match rest.mapM parseRec with
-      | some rs => some ({ reuse := reuse == "1", fold := fold == "1", ref := nat! ref }, rs)
+      | some rs =>
+        match rs.mapM (applyFiles files) with
+        | some rs' => some ({ reuse := reuse == "1", fold := fold == "1", ref := nat! ref }, rs')
+        | none => none
       | none => none
     | _ => none
   | [] => none
